@@ -536,7 +536,7 @@ func (p *Prog) guardedByDepth(target ssa.Instruction, m condMatch, depth int) (b
 		}
 	}
 	// a helper is guarded when every one of its call sites is
-	if depth < 3 && p.isHelper(fn) {
+	if depth < 3 && p.isPlainHelper(fn) {
 		all := true
 		tot := n
 		for _, cs := range p.callers[fn] {
